@@ -323,7 +323,7 @@ func init() {
 		Rule:        "case = grammar program over 1-5 mutually referring productions: (a) systematic templates placing the reference that closes the cycle at every combination of {prefix: none, optional, starred, positive/negative lookahead, consuming (look-alike), bracket-optional, two nullable groups} x {wrapper: bare @@, group, ?/*/+ group, lookahead group, negation} x {route: direct, through another production, through a union member, through another production after a nullable prefix} x {first alternative, second after a single-term / multi-term alternative, third}; (b) random grammars with @@ placed anywhere. Oracle: our own left-edge/nullability analysis of the IR says 'left-recursive' <=> Build returns the left-recursion error; every accepted non-left-recursive grammar is parsed under a Trace-based recursion-depth monitor with bound 4*(tokens+2)*(grammar nodes+1); a left-recursive grammar Build accepted is demonstrated by an input that trips the monitor. Non-trivial: >=2 productions or a template placement. Distinct by grammar IR.",
 		Assumptions: []string{"the IR analysis (nullable fixpoint, left-edge calls through groups, captures, lookahead groups, negation operands, unions, every alternative) is the executable reading of 'can re-enter itself before consuming a token'", "Trace does not change parse results (checked by C15)"},
 		Batches:     func(t string) int { return pick(t, 4, 16) },
-		Floor:       func(t string) int { return pick(t, 300, 1500) },
+		Floor:       func(t string) int { return pick(t, 300, 1200) },
 		TimeoutSec:  func(t string) int { return pick(t, 600, 1800) },
 		Prepare: gramPrepare("C08", func(t string) int { return pick(t, 120, 300) }, c08Opts, func(p *mon.Parent, b int) []*gram.Grammar {
 			return c08Templates(b, p.NBatch)
